@@ -201,7 +201,7 @@ pub fn run(log: &mut Log, items: &[Kv], set: bool, policy: Policy, prefill: &[u8
             drain(log);
             let mut b = match r {
                 Ok(Ok(b)) => {
-                    let bw = if $direct && track { json!([jn(b.bytes_written() as usize)]) } else { json!([]) };
+                    let bw = if $direct && track { bwj(b.bytes_written()) } else { json!([]) };
                     log.ev(json!({"ev": "Call", "name": "new", "res": jok(), "bw": bw, "tracked": track}));
                     b
                 }
@@ -227,7 +227,7 @@ pub fn run(log: &mut Log, items: &[Kv], set: bool, policy: Policy, prefill: &[u8
                 drain(log);
                 match r {
                     Ok(r) => {
-                        let bw = if $direct && track { json!([jn(b.bytes_written() as usize)]) } else { json!([]) };
+                        let bw = if $direct && track { bwj(b.bytes_written()) } else { json!([]) };
                         log.ev(json!({"ev": "Call", "name": "insert", "res": jres(&r), "bw": bw, "tracked": track}));
                         if r.is_err() {
                             {
@@ -354,7 +354,7 @@ pub fn run_bulk(log: &mut Log, items: &[Kv], front: &str, policy: Policy, seed: 
     drain(log);
     let mut b = match r {
         Ok(Ok(b)) => {
-            log.ev(json!({"ev": "Call", "name": "new", "res": jok(), "bw": [jn(b.bytes_written() as usize)], "tracked": true}));
+            log.ev(json!({"ev": "Call", "name": "new", "res": jok(), "bw": bwj(b.bytes_written()), "tracked": true}));
             b
         }
         Ok(Err(e)) => {
@@ -370,7 +370,7 @@ pub fn run_bulk(log: &mut Log, items: &[Kv], front: &str, policy: Policy, seed: 
     drain(log);
     match r {
         Ok(r) => {
-            log.ev(json!({"ev": "Call", "name": front, "res": jres(&r), "bw": [jn(b.bytes_written() as usize)], "tracked": true}));
+            log.ev(json!({"ev": "Call", "name": front, "res": jres(&r), "bw": bwj(b.bytes_written()), "tracked": true}));
             if r.is_err() {
                 return stop(&sh);
             }
@@ -486,7 +486,19 @@ pub fn c07(log: &mut Log, seed: u64, tier: &str) {
     run(log, &items, false, Policy::Cap(1), b"", None, seed, false);
 }
 
+/// bytes_written() is part of C07's statement, not of C11's: the C11 scenario leaves it out of its
+/// events, so that a change to bytes_written() alone is reported under C07 only.
+static LOG_BW: std::sync::atomic::AtomicBool = std::sync::atomic::AtomicBool::new(true);
+fn bwj(n: u64) -> Value {
+    if LOG_BW.load(std::sync::atomic::Ordering::Relaxed) {
+        json!([jn(n as usize)])
+    } else {
+        json!([])
+    }
+}
+
 pub fn c11(log: &mut Log, seed: u64, tier: &str) {
+    LOG_BW.store(false, std::sync::atomic::Ordering::Relaxed);
     let mut r = rng(seed, 11);
     let mut inputs: Vec<Vec<Kv>> = small_inputs(&mut r, tier);
     // directed shapes so that every emission site is hit: wide node with index, every node form
